@@ -116,7 +116,8 @@ def arith_token_texts(toks, dec, tho):
     out = []
     for t in toks:
         if t["k"] == "num":
-            out.append(number_text(Fraction(t["m"][0], t["m"][1]), dec, tho) + t.get("sfx", ""))
+            fr = Fraction(t["m"][0], t["m"][1]) / (10 ** t.get("tiny", 0))
+            out.append(number_text(fr, dec, tho) + t.get("sfx", ""))
         elif t["k"] == "op":
             out.append(t["c"])
         elif t["k"] == "lp":
@@ -277,7 +278,8 @@ def name_text(ws, case="lower"):
     return t
 
 
-FAIL_SPELLINGS = ["(", "3 + (", ")"]
+# lines expected to fail: in the parser ("(", ...) and in the evaluation (well-formed, but no such operation)
+FAIL_SPELLINGS = ["(", "2 hours * 3 hours", "3 + (", "5 km * 2 kg", ")", "10 usd * 2 usd"]
 
 
 def render_line(line, cfg, case="lower", salt=""):
